@@ -313,6 +313,137 @@ pub fn run<D: Dec>(prop: &str, rep: &mut Report) {
         rep.count("make_sequences_held_for_70000_repeats", n);
     }
 
+    // ---------------------------------------------------------------- (b1+) checkpointed soaks: one thing repeated up to 2^24 (thorough 2^26) times on a
+    //      decoder that has a history – a held key after a prefixed sequence was typed, or a run of rejected bytes – and at every
+    //      count 2^k + d (d = -3..3) a clone of the decoder (hook) must still decode a set of probe sequences as the table says
+    {
+        let typist = Typist::new(set, &r);
+        let undefined = typist.undefined_codes.iter().copied().find(|c| ![0xE0u8, 0xE1, 0xF0].contains(c)).unwrap_or(0xFF);
+        let kmax: u32 = if light() { 17 } else if rep.thorough() { 26 } else { 24 };
+        let mut checkpoints: BTreeSet<u64> = BTreeSet::new();
+        for k in 8..=kmax {
+            for d in -3i64..=3 {
+                checkpoints.insert(((1i64 << k) + d) as u64);
+            }
+        }
+        let checkpoints: Vec<u64> = checkpoints.into_iter().collect();
+        let total = *checkpoints.last().unwrap();
+        // probes: a few sequences of every prefix context that share codes, each make + break
+        let mut probes: Vec<Vec<u8>> = Vec::new();
+        for (i, (m, b)) in typist.make.iter().zip(typist.brk.iter()).enumerate() {
+            if i % 9 == 0 || m.len() > 1 && i % 4 == 0 {
+                let mut v = m.clone();
+                v.extend(b);
+                probes.push(v);
+            }
+        }
+        // a sequence that is wrong on a fresh decoder is reported by the transition sweep (K1); the soak is about history
+        probes.retain(|pr| {
+            guarded(|| {
+                let mut d = D::fresh();
+                let mut c = Ctx2::default();
+                pr.iter().all(|b| {
+                    let want = ref_step(set, &r, &mut c, *b);
+                    want.accepts(&d.advance_state(*b))
+                })
+            })
+            .unwrap_or(false)
+        });
+        probes.truncate(24);
+        // (pre-history, the unit that is repeated)
+        let first_ext = typist.make.iter().find(|m| m.len() == 2 && m[0] == 0xE0).cloned().unwrap_or_default();
+        let plain_make = typist.make.iter().find(|m| m.len() == 1).cloned().unwrap_or_default();
+        let ext_make = typist.make.iter().rev().find(|m| m.len() == 2 && m[0] == 0xE0).cloned().unwrap_or_default();
+        let jobs: Vec<(&'static str, Vec<u8>, Vec<u8>)> = vec![
+            ("a plain key held after an E0 sequence", first_ext.clone(), plain_make.clone()),
+            ("an E0 key held after a plain sequence", plain_make.clone(), ext_make.clone()),
+            ("a rejected byte repeated", first_ext.clone(), vec![undefined]),
+            ("an ill-placed prefix pair repeated", plain_make.clone(), vec![0xE0, 0xE0]),
+        ];
+        let prop_s = prop.to_string();
+        let jobs = std::sync::Arc::new(jobs);
+        let (cps, prb) = (std::sync::Arc::new(checkpoints), std::sync::Arc::new(probes));
+        let njobs = jobs.len();
+        let shards = par_map(njobs, move |t| {
+            let r = ref_for(set);
+            let (what, pre, unit) = &jobs[t];
+            let mut out = ShardOut::default();
+            if unit.is_empty() {
+                return out;
+            }
+            let res = guarded(|| {
+                let mut d = D::fresh();
+                let mut ctx = Ctx2::default();
+                for b in pre.iter() {
+                    let _ = ref_step(set, &r, &mut ctx, *b);
+                    let _ = d.advance_state(*b);
+                }
+                // the unit's own results are fixed by the reference: take them once
+                let mut unit_ctx = ctx;
+                let unit_want: Vec<Want> = unit.iter().map(|b| ref_step(set, &r, &mut unit_ctx, *b)).collect();
+                if unit_ctx != Ctx2::default() {
+                    return None;
+                }
+                let mut next_cp = 0usize;
+                let mut n = 0u64;
+                while n < total {
+                    for (i, b) in unit.iter().enumerate() {
+                        let g = d.advance_state(*b);
+                        if !unit_want[i].accepts(&g) {
+                            return Some((n, format!("repetition #{} of [{}]: byte 0x{:02X} returned {}; the table says {}", n + 1, hex_bytes(unit), b, res_str(&g), unit_want[i].show()), format!("unit|byte=0x{:02X}|want={}|got={}", b, unit_want[i].show(), res_str(&g))));
+                        }
+                    }
+                    n += 1;
+                    if next_cp < cps.len() && n == cps[next_cp] {
+                        next_cp += 1;
+                        for pr in prb.iter() {
+                            let mut dd = d.clone();
+                            let mut c = Ctx2::default();
+                            for b in pr.iter() {
+                                let c0 = c;
+                                let want = ref_step(set, &r, &mut c, *b);
+                                let g = dd.advance_state(*b);
+                                if !want.accepts(&g) {
+                                    return Some((n, format!("after {} repetitions of [{}], the sequence [{}]: byte 0x{:02X} in context {} returned {}; the table says {}", n, hex_bytes(unit), hex_bytes(pr), b, c0.name(), res_str(&g), want.show()), format!("probe|ctx={}|byte=0x{:02X}|want={}|got={}", c0.name(), b, want.show(), res_str(&g))));
+                                }
+                            }
+                        }
+                    }
+                }
+                None
+            });
+            out.histories += 1;
+            out.bytes += total * unit.len() as u64;
+            match res {
+                Ok(None) => {}
+                Ok(Some((n, whatmsg, sg))) => out.violations.push((
+                    format!("{}|{}|checkpointed-soak|{}", prop_s, set_name(set), sg),
+                    format!("{} decoder, {} (after [{}]): {}", set_name(set), what, hex_bytes(pre), whatmsg),
+                    J::obj().with("kind", J::s("checkpointed-soak")).with("set", J::u(set as u64)).with("pre_hex", J::s(hex_bytes(pre))).with("unit_hex", J::s(hex_bytes(unit))).with("repetitions", J::u(n)),
+                )),
+                Err(p) => {
+                    out.panics += 1;
+                    out.violations.push((
+                        format!("{}|{}|checkpointed-soak|panic|{}", prop_s, set_name(set), panic_sig(&p)),
+                        format!("{} decoder, {} (after [{}], unit [{}]) panicked where the table defines a result: {}", set_name(set), what, hex_bytes(pre), hex_bytes(unit), p),
+                        J::obj().with("kind", J::s("checkpointed-soak")).with("set", J::u(set as u64)).with("pre_hex", J::s(hex_bytes(pre))).with("unit_hex", J::s(hex_bytes(unit))),
+                    ));
+                }
+            }
+            out
+        });
+        let mut n = 0u64;
+        for s in shards {
+            n += s.histories;
+            rep.evaluations += s.bytes;
+            rep.panics += s.panics;
+            for (sg, what, rp) in s.violations {
+                rep.violate(sg, what, rp);
+            }
+        }
+        rep.count("checkpointed_soaks", n);
+    }
+
     // ---------------------------------------------------------------- (b1') a long time of clean typing, then one fault, then a sequence:
     //      whatever the decoder has learnt from a proven-good line must not change how it treats the next fault
     {
@@ -386,6 +517,21 @@ pub fn run<D: Dec>(prop: &str, rep: &mut Report) {
                             bytes.extend(s2);
                             bytes.extend(s2);
                             lockstep_bare::<D>(prop, set, &r, &bytes, &mut out);
+                        }
+                        // the same run-and-sequence group several times over, then a run of another length before it
+                        // (whatever recognises a *repeated* group by its last few bytes forgets what lies further back)
+                        if k >= 1 && (k + j) % 3 == 0 {
+                            for reps in [3usize, 4, 5, 6] {
+                                let mut bytes: Vec<u8> = Vec::new();
+                                for _ in 0..reps {
+                                    bytes.extend(std::iter::repeat(*p).take(k));
+                                    bytes.extend(s1);
+                                }
+                                bytes.extend(std::iter::repeat(*p).take(j));
+                                bytes.extend(s1);
+                                bytes.extend(s1);
+                                lockstep_bare::<D>(prop, set, &r, &bytes, &mut out);
+                            }
                         }
                     }
                 }
